@@ -3,7 +3,8 @@ tools/machine_ops.py walks clang's AST of the functions that the listings coq/*M
 the script) in the tree under check (common.REPO = /repo or VERIF_REPO) and rewrites coq/MachineOps_gen.v: every + - * / % << (and
 compound assignment), unary - ++ --, abs at int / long / long long, every integral conversion that narrows to a signed type and
 every float -> integer conversion, each with function, operator, result type and normalised source text.  The hand-written
-coq/MachineOpsCover.v names for each of them the listing value that covers it or an exclusion with a reason;
+coq/MachineOpsCover.v names for each of them the listing value that covers it or an exclusion with a reason, and lists
+(callees_not_inlined) every function of the repo that a function of the table calls without being in the table itself;
 Properties_C07_listing.v evaluates MachineOps.ops_covered_b on the two (theorem c07_listings_cover_every_signed_operation), so a
 function that gains, loses or retypes an operation, or whose expression text changes, breaks the build of that file.
   regenerate(ctx) -> (table or None, error or None)      rewrites the generated file
@@ -58,7 +59,7 @@ def first_difference(table, cover):
             return "function %s (%s) of the generated table has no entry in the cover table" % (table[i][1], table[i][0])
         if i >= len(table):
             return "stale cover: function %s (%s) is not in the generated table" % (cover[i][1], cover[i][0])
-        (tl, tf, tops), (cl, cf, cents) = table[i], cover[i]
+        (tl, tf, tops), (cl, cf, cents) = table[i][:3], cover[i]
         if (tl, tf) != (cl, cf):
             tn, cn = [t[1] for t in table], [c[1] for c in cover]
             if tf not in cn:
@@ -87,6 +88,26 @@ def first_difference(table, cover):
     return None
 
 
+def parse_callees(path=COVER):
+    """{name: reason} of the hand-written list callees_not_inlined"""
+    txt = open(path).read()
+    m = re.search(r"Definition callees_not_inlined[^\[]*\[(.*?)\]\.", txt, re.S)
+    return {e.group(1): e.group(2) for e in re.finditer(r"\(%s,\s*%s\)" % (_STR, _STR), m.group(1))} if m else {}
+
+
+def callee_difference(table, callees):
+    """independent replica of MachineOps.calls_okb, in words (None when it holds)"""
+    need = machine_ops.callees_outside(table)
+    for c, by in need.items():
+        if c not in callees:
+            return ("%s calls %s, a function of the repo that is neither in the table of tools/machine_ops.py nor in callees_not_inlined "
+                    "(coq/MachineOpsCover.v): a new callee, possibly with arithmetic that no listing covers" % (", ".join(by), c))
+    for c in callees:
+        if c not in need:
+            return "stale entry of callees_not_inlined: %s is %s" % (c, "a function of the table" if c in set(machine_ops.base_name(t[1]) for t in table) else "not called by any function of the table")
+    return None
+
+
 def counts(table, cover):
     c = machine_ops.counts(table) if table else {}
     listed = sum(1 for f in cover for e in f[2] if e[4].startswith("Listed"))
@@ -96,7 +117,7 @@ def counts(table, cover):
             if e[4].startswith("Excluded"):
                 r = e[4].split()[1]
                 by_reason[r] = by_reason.get(r, 0) + 1
-    c.update({"listings_tied": sorted(set(t[0] for t in (table or []))), "cover_entries": sum(len(f[2]) for f in cover),
+    c.update({"listings_tied": sorted(set(t[0] for t in (table or []))), "calls_to_repo_functions": sum(len(t[3]) for t in (table or [])), "cover_entries": sum(len(f[2]) for f in cover),
               "covered_by_a_listing_value": listed, "excluded_by_reason": by_reason,
               "not_listed": ["%s: %s" % (f[1], e[2]) for f in cover for e in f[2] if e[4] == "Excluded ENotListed"]})
     return c
@@ -111,11 +132,14 @@ def status(ctx):
         cover, terr = [], (terr or "") + " cover table unreadable: %s" % e
     info = {"proof": proof, "translator_error": terr, "counts": counts(table, cover)}
     try:
-        # diagnostic only: functions of the repo called from the table's functions that the table does not contain
-        info["callees_outside_table"] = machine_ops.callees_outside(common.REPO) if table is not None else None
-    except Exception as e:                                      # never let the diagnostic decide the outcome
-        info["callees_outside_table"] = "not computed: %s" % e
+        callees = parse_callees()
+    except (OSError, ValueError):
+        callees = {}
+    info["callees_not_inlined"] = callees
+    info["callees_outside_table"] = machine_ops.callees_outside(table) if table is not None else None
     diff = first_difference(table, cover) if table is not None else None
+    if table is not None and diff is None:
+        diff = callee_difference(table, callees)
     info["first_difference"] = diff
     if terr:
         ok = False
